@@ -36,10 +36,15 @@ THEOREMS += ['CC.circuitEqsAll_map_elecEq', 'CC.C04_zeroing_is_withSrc',
              'CC.C04_zero_voltage_solutions', 'CC.C04_zero_current_solutions', 'CC.C04_deactivate_solutions',
              'CC.C04_deactivate_solutions_withSrc', 'CC.deactivateOthers_ok', 'CC.deactivateOthers_wf',
              'CC.C04_zeroing_superpose', 'CC.C04_reported_zeroing_superpose', 'CC.C04_zeroing_lossy_sum_fails']
+# round 5c: superposition over the library's zeroing for ANY finite partition of the sources, "each source alone" (CC/Properties/C04Groups.lean)
+LEAN_MODULE_EXTRA += ['CC.Properties.C04Groups']
+THEOREMS += ['CC.C04_linear_list', 'CC.C04_zeroing_superpose_groups', 'CC.C04_reported_zeroing_superpose_groups',
+             'CC.C04_each_source_alone', 'CC.C04_reported_each_source_alone', 'CC.C04_groups_two', 'CC.C04_three_sources']
 OPEN_STATEMENTS = ['C04_superpose / C04_reported_superpose_current are PARTIAL: they exclude the reported current of linear (lossy) sources by hypothesis (isLossy = false in all three networks) — the full statement is false for the current code (open finding C04), now kernel-checked: C04_lossy_current_counterexample (Spec level) and C04_reported_lossy_current_counterexample (values get_current returns: -3/2 != -2 + -1/2 for Vq=8V,Z=2 parallel Iq=1A,Y=1/2); only the physical current of such a branch superposes (C04_linear)',
                    'C04_reported_scale (any scale factor, zero included; potentials, voltages, reported currents incl. lossy sources, power by a*conj a) and C04_reported_zero_all are exact-arithmetic statements about every solution vector of the matrix equations of a valid (no self-loop), well-posed skeleton; floating-point rounding and ill-posed networks are covered by the oracle only; conj is an arbitrary ring endomorphism; a*conj a = |a|^2 is proved for the Gaussian rationals of the driver (C04_scale_factor_is_abs_sq), not for the complex numbers of Mathlib',
-                   'the link from short_circuitify_voltage_sources / open_circuitify_current_sources to `withSrc … 0`: PROVED in round 5b for the model (CC/Properties/C04Zeroing.lean) — C04_zero_voltage_solutions / C04_zero_current_solutions / C04_deactivate_solutions: the returned network has exactly the solutions (potentials, voltages AND reported currents, the same report) of the skeleton of the input with every non-exempt source value set to 0, and that skeleton is a withSrc (C04_zeroing_is_withSrc, distinct ids); composed with C04_linear and C01_unique into C04_zeroing_superpose / C04_reported_zeroing_superpose (two groups of sources, each part solved after the library\'s own zeroing operations). What remains outside: model = Python code is C16_gen_shortCircuitifyVS / C16_gen_openCircuitifyCS plus the structural correspondence; exact arithmetic; well-posed N with distinct ids; two groups (more by iteration, not stated); the order voltage-then-current zeroing used by the oracle (the branch-level lemma C04_zeroed_branch_both covers both orders)',
-                   'the record-class change when a source is zeroed (Thevenin record zeroed into a Norton impedance and vice versa): PROVED electrically invisible in round 5b — C04_zeroed_branch_voltage / _current / _both (same terminals, identifier, zero set of the element law, reference direction of the reported current as the skeleton record with source value 0), C04_zeroed_not_lossy (the zeroed record reports its current first→second, the active lossy source in generator direction). Consequence stated exactly in C04_zeroing_superpose: reported currents add on every non-lossy branch; for a lossy source of group A i = i_A − i_B (group B: i_B − i_A), NOT the sum — the open finding C04, witnessed over the library\'s own zeroing by C04_zeroing_lossy_sum_fails (−3/2 ≠ −2 + −1/2, = −2 − (−1/2))']
+                   'the link from short_circuitify_voltage_sources / open_circuitify_current_sources to `withSrc … 0`: PROVED in round 5b for the model (CC/Properties/C04Zeroing.lean) — C04_zero_voltage_solutions / C04_zero_current_solutions / C04_deactivate_solutions: the returned network has exactly the solutions (potentials, voltages AND reported currents, the same report) of the skeleton of the input with every non-exempt source value set to 0, and that skeleton is a withSrc (C04_zeroing_is_withSrc, distinct ids); composed with C04_linear and C01_unique into C04_zeroing_superpose / C04_reported_zeroing_superpose (two groups of sources, each part solved after the library\'s own zeroing operations). What remains outside: model = Python code is C16_gen_shortCircuitifyVS / C16_gen_openCircuitifyCS plus the structural correspondence; exact arithmetic; well-posed N with distinct ids; any finite partition of the active sources into groups since round 5c (C04_zeroing_superpose_groups / C04_reported_zeroing_superpose_groups; each source alone: C04_each_source_alone; two groups re-derived: C04_groups_two); the order voltage-then-current zeroing used by the oracle (the branch-level lemma C04_zeroed_branch_both covers both orders)',
+                   'the record-class change when a source is zeroed (Thevenin record zeroed into a Norton impedance and vice versa): PROVED electrically invisible in round 5b — C04_zeroed_branch_voltage / _current / _both (same terminals, identifier, zero set of the element law, reference direction of the reported current as the skeleton record with source value 0), C04_zeroed_not_lossy (the zeroed record reports its current first→second, the active lossy source in generator direction). Consequence stated exactly in C04_zeroing_superpose: reported currents add on every non-lossy branch; for a lossy source of group A i = i_A − i_B (group B: i_B − i_A), NOT the sum — the open finding C04, witnessed over the library\'s own zeroing by C04_zeroing_lossy_sum_fails (−3/2 ≠ −2 + −1/2, = −2 − (−1/2))',
+                   'round 5c (CC/Properties/C04Groups.lean): the n-group statements are about the MODEL of the zeroing operations applied voltage-then-current (deactivateOthers), exact arithmetic, N with distinct ids (reported version: valid) and well-posed; the exemption lists must partition the ACTIVE sources (is_voltage_source or is_current_source; every active source in exactly one list — hypothesis hpart, discharged for "each source alone" by each_source_partition); for a linear (lossy) source the reported current is the signed sum i = i_own − Σ_others, never the plain sum (witness with three sources: C04_three_sources, −1/2 = −2 − (−1/2) − (−1) ≠ −7/2). Still open / oracle only: floating point, ill-posed networks, exemption lists that overlap or miss an active source (then the parts do not add up to N — not a superposition), powers of the parts (not additive, not claimed)']
 ASSUMPTIONS = ['C04.lean / C04More.lean are about the Spec over a fixed skeleton; C04Zeroing.lean links the skeleton with zeroed source values to the networks the model of the library\'s zeroing operations returns (same solutions); model = Python code is C16_gen_* plus the structural correspondence',
                'the implementation-side sums use the implementation\'s own solver (validated by C01)']
 
